@@ -155,14 +155,16 @@ PosOf(m, a) == CHOOSE p \in 1..m.K : m.aord[p] = a
 \* Pineau's horizon: ceil(log(eps / (rhi - rlo)) / log(gamma)) = least h with gamma^h (rhi - rlo) <= eps.
 \* -1: rhi = rlo (the formula divides by zero); HCAP + 1: more than HCAP (the machine does not run)
 HCAP == 8
+\* gamma^h (rhi - rlo) / PD as a rational
+Shrunk(m, c, h) == RMul(Norm(Pow(m.GN, h), Pow(m.GD, h)), Norm(c.rhi - c.rlo, m.PD))
 AutoH(m, c, job) ==
   IF c.rhi = c.rlo THEN -1
-  ELSE LET ok(h) == Safe(Pow(m.GN, h) * (c.rhi - c.rlo)) * job.ED <= Safe(job.EN * m.PD) * Pow(m.GD, h)
+  ELSE LET ok(h) == RLeq(Shrunk(m, c, h), <<job.EN, job.ED>>)
        IN IF \E h \in 0..HCAP : ok(h) THEN CHOOSE h \in 0..HCAP : ok(h) /\ \A g \in 0..(h - 1) : ~ok(g)
           ELSE HCAP + 1
 \* the formula hits a power of gamma exactly: floating point may round either way (generator avoids it)
 AutoHExact(m, c, job) ==
-  c.rhi # c.rlo /\ \E h \in 0..HCAP : Safe(Pow(m.GN, h) * (c.rhi - c.rlo)) * job.ED = Safe(job.EN * m.PD) * Pow(m.GD, h)
+  c.rhi # c.rlo /\ \E h \in 0..HCAP : REq(Shrunk(m, c, h), <<job.EN, job.ED>>)
 Horizon(m, c, job) == IF job.H >= 0 THEN job.H ELSE AutoH(m, c, job)
 
 \* position based argmax over 1..n
@@ -373,7 +375,7 @@ NeverOver ==
      /\ \A i \in 1..NB :
           LET w  == JobBs(M, jx)[i]
               h1 == EM(M, orc.c, w, 1)
-          IN RLeq(AlphaValue(M, bv, NB, k, w),
+          IN BSum(M, w) > 64 \/ RLeq(AlphaValue(M, bv, NB, k, w),
                   RAdd(Norm(h1[2], Safe(orc.c.den[1] * BSum(M, w))), SlackUp(M, orc.c, k)))
 \* (P2) on a belief set that is closed under (masked) successors the point-based backup is exact: at a
 \*      member, the value is the optimal k-step value, hence within SlackLo(k) below / SlackUp(k) above of
